@@ -79,6 +79,9 @@ THEOREMS = [
     "Scenic.C16.lazy_union_loop_witness",
     "Scenic.C16.project_nearest",
     "Scenic.C16.sampler_membership",
+    "Scenic.C16.true_membership",
+    "Scenic.C16.pointset_sampler_support",
+    "Scenic.C16.intersects_composite_witness",
 ]
 SIDE = [
     "Scenic.C16.gen_flags_ok",
@@ -1225,6 +1228,24 @@ def projection_checks(ctx, rng, use_lean):
     if use_lean:
         lines = [" ".join(["C16", "proj"] + tokens(b)[1:] + [fs(x) for x in p] + [fs(x) for x in d]) for b, p, d in items]
         lean = ctx.driver(lines)
+    # box *surfaces*: from a point inside the box both rays hit the surface (and from outside the line crosses it twice),
+    # so "nearest along +-d" and "any hit" differ; ground truth = the exact slab parameters of the line
+    DIRS = [(0, 0, 1), (1, 0, 0), (0, 1, 0), (1, 1, 0), (1, 2, 2), (0, -1, 1), (2, 0, 1), (-1, 3, 2)]
+    FRS = [Fr(k, 8) for k in (-6, -5, -3, -2, -1, 0, 1, 2, 3, 5, 6)]
+    for i in range(ctx.budget(60, 400)):
+        zs = [Fr(0), Fr(2)]
+        box = gen_region(rng, "surf", rng.choice(zs), zs)
+        if i % 3 == 0:
+            box = ("surf", box[1], box[2], (1, 0, 0, 0))
+        c, h = box[1], box[2]
+        axes = quat_axes(box[3])
+        d = tuple(Fr(x) for x in rng.choice(DIRS))
+        loc = [rng.choice(FRS) * h[j] for j in range(3)]
+        p = tuple(c[j] + sum(loc[k] * axes[k][j] for k in range(3)) for j in range(3))
+        if i % 4 == 3:      # a start point outside, on a line through the box
+            t = rng.choice([Fr(5), Fr(-5), Fr(7, 2), Fr(-9, 2)])
+            p = tuple(p[j] + t * d[j] for j in range(3))
+        items.append((box, p, d))
     for i, (b, p, d) in enumerate(items):
         Rg = build(b)
         v = vec(p)
@@ -1236,14 +1257,17 @@ def projection_checks(ctx, rng, use_lean):
                 found = True
             continue
         ctx.case(("proj", spec_json(b), spec_json(p), spec_json(d)), nontrivial=q is not None)
-        ctx.hist("projection", "none" if q is None else ("inside" if tuple(q) == tuple(v) else "hit"))
+        ctx.hist("projection", b[0] + ":" + ("none" if q is None else ("inside" if tuple(q) == tuple(v) else "hit")))
         rep = {"kind": "proj", "box": spec_json(b), "p": spec_json(p), "d": spec_json(d)}
-        bad_proj = proj_verdict(Rg, v, d, q)
+        bad_proj = proj_verdict(Rg, v, d, q, b, p)
+        if bad_proj == "undecided":
+            ctx.hist("projection", "surf:undecided (hit near an edge / a face diagonal)")
+            continue
         if bad_proj:
             if ctx.violation(bad_proj[0], bad_proj[1], rep):
                 found = True
             continue
-        if lean is not None:
+        if lean is not None and b[0] == "vol":
             lo = lean[i].split()
             if lo[0] == "none":
                 ok = q is None
@@ -1260,11 +1284,74 @@ def projection_checks(ctx, rng, use_lean):
     return found
 
 
-def proj_verdict(Rg, v, d, q):
-    """the property of one projection result: on the line, a member, nothing nearer (scan) -> (key, what) or None"""
+def slab_line(box, p, d):
+    """exact parameters (t_in, t_out) between which the line p + t*d is inside the oriented box; None if it misses"""
+    c, h = box[1], box[2]
+    axes = quat_axes(box[3])
+    lo = hi = None
+    for i in range(3):
+        o = sum((p[j] - c[j]) * axes[i][j] for j in range(3))
+        di = sum(d[j] * axes[i][j] for j in range(3))
+        if di == 0:
+            if abs(o) > h[i]:
+                return None
+            continue
+        a, b = sorted(((-h[i] - o) / di, (h[i] - o) / di))
+        lo = a if lo is None else max(lo, a)
+        hi = b if hi is None else min(hi, b)
+    if lo is None or lo >= hi:
+        return None
+    return lo, hi
+
+
+def face_interior(box, p, d, t, m=MARGIN):
+    """does p + t*d lie on exactly one face of the box, keeping the margin from its edges and from both diagonals
+    (the mesh's faces are split into two triangles; rays through an edge are numerically undecidable)"""
+    c, h = box[1], box[2]
+    axes = quat_axes(box[3])
+    x = tuple(p[j] + t * d[j] for j in range(3))
+    loc = [sum((x[j] - c[j]) * axes[i][j] for j in range(3)) for i in range(3)]
+    on = [i for i in range(3) if abs(abs(loc[i]) - h[i]) <= m]
+    if len(on) != 1 or abs(loc[on[0]]) != h[on[0]]:
+        return False
+    u, w = [loc[i] / h[i] for i in range(3) if i != on[0]]
+    return abs(u - w) > 2 * m and abs(u + w) > 2 * m
+
+
+def proj_verdict_surf(Rg, v, d, q, box, p):
+    """a box surface: the members on the line are its two crossing points (exact slab computation); the result must be
+    the nearer one.  -> (key, what) | None | "undecided" """
+    M = real()
+    dn2 = sum(x * x for x in d)
+    dn = math.sqrt(float(dn2))
+    sl = slab_line(box, p, d)
+    if sl is None:
+        return None                     # (a result, if any, was checked to be a member on the line by the caller)
+    ts = sorted(sl, key=abs)
+    if abs(ts[0]) * dn < 0.125 or (abs(ts[1]) - abs(ts[0])) * dn < 0.125:
+        return "undecided"              # start point (nearly) on the surface, or two hits at (nearly) the same distance
+    if not all(face_interior(box, p, d, t) for t in ts):
+        return "undecided"
+    cand = M["Vector"](*(float(p[j] + ts[0] * d[j]) for j in range(3)))
+    if float(Rg.distanceTo(cand)) > 1e-6 or not Rg.containsPoint(cand):
+        return "undecided"              # the real classes do not regard the exact crossing point as a member
+    if q is None:
+        return ("projectVector:surf:none-but-member", f"projection of {tuple(v)} along ±{[float(x) for x in d]} onto the box "
+                f"surface is None but {tuple(cand)} is on the line and in the region")
+    tq = sum((q[j] - v[j]) * float(d[j]) for j in range(3)) / float(dn2)
+    if abs(tq) * dn > abs(float(ts[0])) * dn + 1e-5:
+        return ("projectVector:surf:not-nearest", f"projection of {tuple(v)} along ±{[float(x) for x in d]} onto the box surface "
+                f"is {tuple(q)} (|t|={abs(tq) * dn:.4f}) but {tuple(cand)} (|t|={abs(float(ts[0])) * dn:.4f}) is on the line "
+                f"and in the region")
+    return None
+
+
+def proj_verdict(Rg, v, d, q, spec=None, p=None):
+    """the property of one projection result: on the line, a member, nothing nearer (volumes: scan; surfaces: exact
+    crossing points) -> (key, what) | None | "undecided" """
     M = real()
     if q is None:
-        return None
+        return proj_verdict_surf(Rg, v, d, q, spec, p) if spec is not None and spec[0] == "surf" else None
     dn = math.sqrt(sum(float(x) ** 2 for x in d))
     du = [float(x) / dn for x in d]
     w = [q[j] - v[j] for j in range(3)]
@@ -1274,6 +1361,10 @@ def proj_verdict(Rg, v, d, q):
         return ("projectVector:off-line", f"projection {tuple(q)} of {tuple(v)} is not on the line along {d}")
     if float(Rg.distanceTo(q)) > 1e-5:
         return ("projectVector:not-member", f"projection {tuple(q)} is not in the region")
+    if spec is not None and spec[0] == "surf":
+        if tuple(q) == tuple(v):
+            return None                 # the start point itself is on the surface
+        return proj_verdict_surf(Rg, v, d, q, spec, p)
     steps = 400
     for s_ in range(1, steps):
         for sg in (1, -1):
@@ -1542,8 +1633,10 @@ def replay(ctx, path):
         try:
             q = Rg.projectVector(vec(p), tuple(float(x) for x in d))
             print("projectVector ->", q)
-            bad = proj_verdict(Rg, vec(p), d, q)
-            if bad:
+            bad = proj_verdict(Rg, vec(p), d, q, b, p)
+            if bad == "undecided":
+                print("undecided (hit near an edge)")
+            elif bad:
                 print(bad[0], "-", bad[1])
                 failing = True
             elif rep.get("model") is not None:
